@@ -421,12 +421,16 @@ def validate_trace_parallel(module, cfg, trace, tag, chunks, timeout=1500):
             results[i] = validate_trace(module, cfg, part, f"{tag}-{i}", timeout) + (part, i * size)
         except ToolError as e:
             results[i] = e
+        except Exception as e:
+            results[i] = ToolError(f"trace validation worker {i}: {e!r}")
     ts = [threading.Thread(target=work, args=(i,)) for i in range(chunks)]
     [t.start() for t in ts]
     [t.join() for t in ts]
     for r in results:
         if isinstance(r, Exception):
             raise r
+        if r is None:
+            raise ToolError("a trace validation worker produced no result")
     return results
 
 
@@ -701,16 +705,20 @@ def chain_trace_stage(ev, runs, calls, stake=False):
     results = []
     import threading
     def work(k):
-        a, b = starts[k * per], starts[min((k + 1) * per, len(starts) - 1)]
-        if a >= b:
-            return
-        part = f"{tr}.{k}"
-        with open(part, "w") as f:
-            f.write("\n".join(lines[a:b]) + "\n")
         try:
+            if k * per >= len(starts) - 1:
+                return
+            a, b = starts[k * per], starts[min((k + 1) * per, len(starts) - 1)]
+            if a >= b:
+                return
+            part = f"{tr}.{k}"
+            with open(part, "w") as f:
+                f.write("\n".join(lines[a:b]) + "\n")
             results.append(validate_trace("trace/Trace_Chain.tla", tcfg, part, f"{pid}-ctrace{sfx}-{k}", 600) + (part,))
         except ToolError as e:
             results.append(e)
+        except Exception as e:      # a worker must never die silently
+            results.append(ToolError(f"trace validation worker {k}: {e!r}"))
     ts = [threading.Thread(target=work, args=(k,)) for k in range(nchunks)]
     [t.start() for t in ts]
     [t.join() for t in ts]
